@@ -98,14 +98,21 @@ Proof. exact layouter_nil_means_defaults_pf. Qed.
 Print Assumptions layouter_nil_means_defaults.
 
 (* ================================================================== *)
-(* kern.Read never panics and terminates on any byte string (for C02); the
-   number of records it processes, hence the size of the map, is bounded. *)
+(* kern.Read never panics and terminates on any byte string (for C02); every
+   record it processes costs six bytes of input of its own (subtables do not
+   overlap, fixes/C02-kern-overlapping-subtables.diff), so the work and the
+   size of the map are linear in the input. *)
 Theorem kern_read_total : forall b,
   run_kern_read b <> Panic /\ run_kern_read b <> OutOfFuel /\
   (forall km, run_kern_read b = Ok km ->
-     (6 * length km <= N.to_nat (nth 2%nat b 0%N * 256%N + nth 3%nat b 0%N)%N * length b)%nat).
+     (6 * length km <= length b)%nat).
 Proof. exact kern_read_total_pf. Qed.
 Print Assumptions kern_read_total.
+
+(* the number of records processed is linear in the input: six bytes each *)
+Theorem kern_records_linear : forall b es, kern_records b = Ok es -> (6 * length es <= length b)%nat.
+Proof. exact kern_records_linear_pf. Qed.
+Print Assumptions kern_records_linear.
 
 (* What kern.Read stores for a pair is the table read for that pair alone:
    the records of the pair in file order, minimum subtables bounding the value
